@@ -2,7 +2,8 @@
 """Regenerates the seeded-changes table in DESIGN.md section 7 from seeded/*/meta.json."""
 import json, glob, os, re
 rows = []
-for d in sorted(glob.glob('/verif/seeded/*')):
+for d in sorted(glob.glob('/verif/seeded/*/')):
+    d = d.rstrip('/')
     m = json.load(open(os.path.join(d, 'meta.json')))
     name = os.path.basename(d)
     note = m.get('notes', '')
